@@ -23,11 +23,25 @@
 //! The worker threads are stopped, as soon as no pending subproblems are left *and* no thread is still busy (and could
 //! produce new pending subproblems).
 
+#[cfg(feature = "verif")]
+use crate::verif::sync::{thread, Condvar, Mutex};
 use log::debug;
 use num_traits::bounds::Bounded;
 use std::collections::BinaryHeap;
-use std::sync::{Arc, Condvar, Mutex};
-use std::{fmt, thread, time};
+use std::sync::Arc;
+#[cfg(not(feature = "verif"))]
+use std::sync::{Condvar, Mutex};
+#[cfg(not(feature = "verif"))]
+use std::thread;
+use std::{fmt, time};
+
+/// Verification hook: records an event in the history of a scheduler-controlled run (feature `verif` only)
+macro_rules! verif_event {
+    ($($arg:tt)*) => {
+        #[cfg(feature = "verif")]
+        crate::verif::sync::hook(format!($($arg)*));
+    };
+}
 
 /// Struct to hold the synchronization information for the parallel execution. It contains a mutex-ed SharedState object
 /// And a Candvar to allow worker threads to sleep-wait for new subproblems to solve.
@@ -192,6 +206,11 @@ where
         .into_inner()
         .expect("Could not move SharedState out of mutex.");
     shared_state.statistics.total_time = total_time;
+    verif_event!(
+        "result|{}|{}",
+        shared_state.best_result.is_some(),
+        shared_state.best_score
+    );
 
     (
         match shared_state.best_result {
@@ -215,6 +234,7 @@ fn worker<SubProblem: Ord + Send + fmt::Debug, Solution: Send, Score: Ord + Copy
             // far. I.e. bound branch if score will be worse then best known feasible solution.
             if shared_state.best_result.is_none() || parent_score > shared_state.best_score {
                 shared_state.busy_threads += 1;
+                verif_event!("pop_solve|{:?}|{}", subproblem, parent_score);
 
                 // Unlock shared_state and solve subproblem
                 std::mem::drop(shared_state);
@@ -231,6 +251,7 @@ fn worker<SubProblem: Ord + Send + fmt::Debug, Solution: Send, Score: Ord + Copy
                         // forever. The panic is propagated to the caller via the worker's JoinHandle.
                         let mut shared_state = bab.shared_state.lock().unwrap();
                         shared_state.busy_threads -= 1;
+                        verif_event!("finish_panic");
                         bab.condvar.notify_all();
                         std::mem::drop(shared_state);
                         std::panic::resume_unwind(panic_payload);
@@ -246,6 +267,7 @@ fn worker<SubProblem: Ord + Send + fmt::Debug, Solution: Send, Score: Ord + Copy
                 match result {
                     NodeResult::NoSolution => {
                         shared_state.statistics.num_no_solution += 1;
+                        verif_event!("finish_nosol");
                     }
 
                     NodeResult::Feasible(solution, score) => {
@@ -261,6 +283,9 @@ fn worker<SubProblem: Ord + Send + fmt::Debug, Solution: Send, Score: Ord + Copy
                             shared_state.statistics.num_new_best += 1;
                             shared_state.best_result = Some(solution);
                             shared_state.best_score = score;
+                            verif_event!("finish_feas|{}|1", score);
+                        } else {
+                            verif_event!("finish_feas|{}|0", score);
                         }
                     }
 
@@ -270,6 +295,7 @@ fn worker<SubProblem: Ord + Send + fmt::Debug, Solution: Send, Score: Ord + Copy
                             "We found an infeasible solution with score {}: {}",
                             score, subproblem_formatted
                         );
+                        verif_event!("finish_inf|{}|{:?}", score, new_problems);
                         // Add new subproblems to queue
                         for (i, new_problem) in new_problems.into_iter().enumerate() {
                             shared_state
@@ -284,6 +310,7 @@ fn worker<SubProblem: Ord + Send + fmt::Debug, Solution: Send, Score: Ord + Copy
                 }
             } else {
                 shared_state.statistics.num_bound_subproblems += 1;
+                verif_event!("pop_bound|{:?}|{}", subproblem, parent_score);
                 debug!(
                     "Bounding this branch, since score {} is already worse then best known feasible solution: {:?}",
                     parent_score,
@@ -293,18 +320,22 @@ fn worker<SubProblem: Ord + Send + fmt::Debug, Solution: Send, Score: Ord + Copy
 
             // check if we are finished, awake other threads and exit
             if shared_state.pending_nodes.is_empty() && shared_state.busy_threads == 0 {
+                verif_event!("exit_yes");
                 bab.condvar.notify_all();
                 break;
             }
+            verif_event!("exit_no");
 
         // Otherwise wait for new subproblems
         } else if shared_state.busy_threads > 0 {
+            verif_event!("empty_wait");
             // Wait for notification by other threads. CondVar.wait() automatically handels the mutex unlock and re-lock
             // for us.
             shared_state = bab.condvar.wait(shared_state).unwrap();
 
         // If no work is left to do, exit
         } else {
+            verif_event!("empty_done");
             break;
         }
     }
